@@ -3,7 +3,7 @@ use crate::verif_nd as nd;
 use crate::verif_nd::{harness, nd_cover};
 
 // RFC 8878 3.1.1.5 transcribed independently of the implementation
-fn spec(of: u32, ll: u32, h: [u32; 3]) -> (u32, [u32; 3]) {
+pub(crate) fn spec(of: u32, ll: u32, h: [u32; 3]) -> (u32, [u32; 3]) {
     if of > 3 {
         let o = of - 3;
         return (o, [o, h[0], h[1]]);
